@@ -51,6 +51,15 @@ Proof.
   - intro Hin. apply memb_In in Hin. rewrite Hin in B. discriminate.
 Qed.
 
+Definition no_empty_name_b (s : heap) : bool :=
+  forallb (fun x : node => match kind x with KDir => negb (kmem [] (kids x)) | _ => true end) s.
+Lemma no_empty_name_b_sound : forall s, no_empty_name_b s = true -> no_empty_name s.
+Proof.
+  intros s H n x E K. unfold no_empty_name_b in H. rewrite forallb_forall in H.
+  specialize (H x (nth_error_In _ _ E)). rewrite K in H. unfold kmem in H.
+  destruct (kget [] (kids x)); [discriminate | reflexivity].
+Qed.
+
 Section Checkers.
 Variable NH : bytes -> list entry -> bytes.
 Variable by_id : bool.
@@ -62,6 +71,7 @@ Definition guard_b (s : heap) (o : op) : bool :=
   match o with
   | OUpdate p l => nodup_b (map fst l) && forallb (fun nc => plain_b (fst nc) && (snd nc <? length s)) l
   | OWrite _ _ => false
+  | ODel _ _ => no_empty_name_b s
   | _ => true
   end.
 Fixpoint guarded_b (s : heap) (h : list op) : bool :=
@@ -74,7 +84,8 @@ Lemma guard_b_sound : forall s o, guard_b s o = true -> guard NH by_id old s o.
 Proof.
   intros s o H. apply andb_true_iff in H. destruct H as [A B]. split.
   - apply existsb_exists in A. destruct A as (rl & _ & Hr). exists (rank_of rl). apply (proj1 (ranked_b_sound rl _ Hr)).
-  - destruct o; auto; try discriminate. apply andb_true_iff in B. destruct B as [ND F]. split; [apply nodup_b_sound; exact ND|].
+  - destruct o; auto; try discriminate; try (apply no_empty_name_b_sound; exact B).
+    apply andb_true_iff in B. destruct B as [ND F]. split; [apply nodup_b_sound; exact ND|].
     intros name c Hin. rewrite forallb_forall in F. specialize (F (name, c) Hin). simpl in F.
     apply andb_true_iff in F. destruct F as [P L]. split; [apply plain_b_sound; exact P | apply Nat.ltb_lt; exact L].
 Qed.
